@@ -117,6 +117,15 @@ def impl(case):
         es, ns, shape2d, center, sizes = a
         e = C.mkarr(es, shape2d, "es:" + case["op"])
         n = C.mkarr(ns, shape2d, "ns:" + case["op"])
+        # history: the very same array OBJECTS were used in an earlier call while they held other positions (a pre-allocated buffer
+        # refilled in place); the result must be about what the arrays hold NOW
+        e, n = np.array(e), np.array(n)
+        keep_e, keep_n = e.copy(), n.copy()
+        e[...] = keep_e[::-1] * 0.5 - 3.0 if e.ndim == 1 else keep_e * 0.5 - 3.0
+        n[...] = keep_n * -2.0 + 1.0
+        C.call(vd.expanding_window, (e, n), center, sizes)
+        e[...] = keep_e
+        n[...] = keep_n
         e.setflags(write=False)
         n.setflags(write=False)
         r = C.call(vd.expanding_window, (e, n, np.zeros_like(e)), center, sizes)
@@ -131,6 +140,13 @@ def impl(case):
     es, ns, shape2d, size, region, shape, spacing, adjust, extra = a
     e = C.mkarr(es, shape2d, "es:" + case["op"])
     n = C.mkarr(ns, shape2d, "ns:" + case["op"])
+    e, n = np.array(e), np.array(n)
+    keep_e, keep_n = e.copy(), n.copy()
+    e[...] = keep_e * 0.5 - 3.0          # same objects, other positions, earlier call (see expanding_window above)
+    n[...] = keep_n * -2.0 + 1.0
+    C.call(vd.rolling_window, (e, n), size, spacing=spacing, shape=shape, region=None if region is None else tuple(region), adjust=adjust)
+    e[...] = keep_e
+    n[...] = keep_n
     e.setflags(write=False)
     n.setflags(write=False)
     coords = (e, n, np.ones_like(e)) if extra else (e, n)
